@@ -333,7 +333,14 @@ theorem serUnitStruct_tr (ext : Ext) (hk : P → S.keysInBounds) (hn : P → Nod
 
 theorem serUnitVariant_tr (ext : Ext) (hk : P → S.keysInBounds) (hn : P → NodeOK S node) (v : String) :
     Tr P (serUnitVariant ext S node v) (fun _ => True) := by
-  unfold serUnitVariant; exact viaUnion_tr hk hn (fun n _ => by tr_auto)
+  have hAt : ∀ n, (P → NodeOK S n) → Tr P (serUnitVariantAt ext v n) (fun _ => True) := by
+    intro n _; unfold serUnitVariantAt; tr_auto
+  unfold serUnitVariant
+  split
+  · split
+    · exact writeVarI64_tr _
+    · exact viaUnion_tr hk hn hAt
+  · exact viaUnion_tr hk hn hAt
 
 theorem blockNew_tr (n : Nat) : Tr P (blockNew n) (fun _ => True) := by
   unfold blockNew; tr_auto
